@@ -2,6 +2,7 @@ import Zc.Proofs.Sched
 import Zc.Proofs.Sched2
 import Zc.Proofs.SchedRefreshed
 import Zc.GenFacts.FnSched
+import Zc.GenFacts.FnSchedRun
 /-! # C10 — the browser keeps learned services alive: refresh queries, rate limit, liveness
 
 Model: `Zc.Sched` (`lean/Zc/Model/Sched.lean`), the `QueryScheduler` of `_services/browser.py` **after**
@@ -832,10 +833,15 @@ the translated bodies for: the five comparison methods, `start`, `stop`, `_arm_r
 `_process_startup_queries`, constructor + `_schedule_ptr_query` (`schedule2`), `cancel_ptr_refresh` (`cancel2`),
 `reschedule_ptr_first_refresh` (`reschedule2`), `schedule_rescue_query` (`rescueOf` + `schedule2`) and `_process_ready_types`
 (`fireReady2`: the `while` loop = `popReady2`, the rescue loop = the fold of `schedule2`, the same wake-up armed) — every block of
-`step2`.  **Not proved**: an equation between whole runs (`exec2`) and sequences of translated calls (it needs the side conditions of
-the block lemmas — `StoreOk`, "the dict's ids are in the heap", "`start` was called" — as an invariant of the translated run); so the
-theorems of this file about runs remain theorems about the hand-written `step2`, each of whose blocks is the translated body by the
-lemmas below.  **A difference the tie makes explicit**: the code hands `async_send_ready_queries` the popped names as a `set`; the model's
+`step2`.  **Whole runs** (`GenFacts/FnSchedRun.lean`): `execG` drives the *generated* `QueryScheduler` through the blocks of a trace, one
+translated method per block (which callback a `fire` runs is decided by the timer the effects of the earlier calls left armed);
+`exec_source`: along every run the model accepts (`exec2 … = .ok`) the generated scheduler never raises, keeps representing the model's
+state (`RunInv`: `Rel`, `StoreOk`, the model's dict/heap invariant, "a timer handle implies a loop", "armed implies started") and makes,
+send for send, the model's `async_send_ready_queries` calls (`SendsEq`: same instant, `first` flag, question type, the same *set* of
+types).  Hence the `_source` twins below (`C10_run_is_source`, `C10_startup_rate_alive2_source`, `C10_refresh_chain2_source` — the latter covers `C10_refresh_chain2`
+and `C10_refreshed_chain2`).  Hand-written on that path: which block happens when (the trace, the
+event-loop axioms `enabledAt2`), and the pointer records handed to the methods (built from the block's alias, name, TTL, creation time;
+aliases lower-case already).  **A difference the tie makes explicit**: the code hands `async_send_ready_queries` the popped names as a `set`; the model's
 `Send.types` lists them with repetitions (`C10_ready_source` relates the two by `PySet.ofList`). -/
 section Tie
 open Zc.Py Zc.Sched2 Zc.GenFn.Sched Zc.GenFacts.FnSched
@@ -866,7 +872,7 @@ theorem C10_schedule_source {c : Cfg} {s : QueryScheduler} {m : S2} (h : Rel c s
     ∃ s' eff, QueryScheduler.schedule_ptr_query { s with store := (PyStore.alloc s.store o).2 } (PyStore.alloc s.store o).1 = .ok (s', eff)
       ∧ Rel c s' (schedule2 m (toQ o)) ∧ StoreOk s'
       ∧ armedAfter now m.armed eff = (schedule2 m (toQ o)).armed :=  by
-  obtain ⟨s', eff, h1, h2, h3, _, h4, _⟩ := schedule_new_eq h hok hl o now
+  obtain ⟨s', eff, h1, h2, h3, _, h4, _⟩ := schedule_new_eq h hok (fun _ => hl) o now
   exact ⟨s', eff, h1, h2, h3, h4⟩
 
 /-- **Cancelling and re-scheduling in the translated code** are the model's `cancel2` / `reschedule2` (`a` = the pointer's lower-cased
@@ -879,7 +885,7 @@ theorem C10_cancel_reschedule_source {c : Cfg} {s : QueryScheduler} {m : S2} (lo
         ∧ reschedule2 c m a p.name p.ttl p.created = .ok m' ∧ Rel c s' m' ∧ StoreOk s'
         ∧ armedAfter now m.armed eff = m'.armed) := by
   obtain ⟨s1, h1, h2, h3, _⟩ := cancel_ptr_refresh_eq lower h hok p a ha
-  obtain ⟨s2, eff, m', g1, g2, g3, g4, _, g5, _⟩ := reschedule_ptr_first_refresh_eq lower h hok hl p a ha now hdh
+  obtain ⟨s2, eff, m', g1, g2, g3, g4, _, g5, _⟩ := reschedule_ptr_first_refresh_eq lower h hok (fun _ => hl) p a ha now hdh
   exact ⟨⟨s1, h1, h2, h3⟩, ⟨s2, eff, m', g1, g2, g3, g4, g5⟩⟩
 
 /-- **The rescue query of the translated code** (10 % of the TTL after the refresh, dropped when that is at or past the expiry) is
@@ -904,6 +910,85 @@ theorem C10_ready_source {c : Cfg} {s : QueryScheduler} {m : S2} (h : Rel c s m)
       ∧ sendsOf c eff = outs.map (fun sd => { sd with types := PySet.ofList strEq sd.types }) := by
   obtain ⟨s', eff, m', outs, h1, h2, h3, h4, _, h5, h6⟩ := process_ready_types_eq h hok hl now clk r hpop
   exact ⟨s', eff, m', outs, h1, h2, h3, h4, h5, h6⟩
+
+open Zc.GenFacts.FnSchedRun in
+/-- the freshly constructed generated scheduler represents the model's initial state -/
+theorem C10_init_runInv (types : List String) (minDelay : Nat) (qtype : Option Bool) (addr : Option String) (port : Int) (multicast : Bool) :
+    RunInv (C10.browserCfg types minDelay qtype)
+      (QueryScheduler.init () types addr port multicast (minDelay : Int)
+        (((C10.browserCfg types minDelay qtype).lo : Int), ((C10.browserCfg types minDelay qtype).hi : Int)) qtype 0) {} :=
+  ⟨⟨rfl, rfl, fun _ => rfl, rfl, rfl, rfl, rfl, rfl, rfl, rfl, rfl⟩,
+   ⟨PyStore.fresh_empty, (fun _ h => by cases h), (fun _ h => by cases h), PyDict.WF_nil⟩,
+   inv2_init, (fun h => by cases h), (fun h => by cases h)⟩
+
+open Zc.GenFacts.FnSchedRun in
+/-- **Every accepted run, in the translated code.**  For the scheduler a browser builds (`QueryScheduler(zc, types, addr, port, multicast,
+delay, _FIRST_QUERY_DELAY_RANDOM_INTERVAL, question_type)`, clock resolution 0) and any trace the model accepts, the translated methods
+— called block by block — never raise, and the `async_send_ready_queries` calls they make are, send for send, the model's `outs` -/
+theorem C10_run_is_source (lower : String → String) (types : List String) (minDelay : Nat) (qtype : Option Bool) (addr : Option String)
+    (port : Int) (multicast : Bool) (tS : Int) (evs : List (Int × Op)) (hal : ∀ e ∈ evs, aliasOk lower e.2)
+    (s' : S2) (outs : List Send) (hex : exec2 (C10.browserCfg types minDelay qtype) {} tS evs = .ok (s', outs)) :
+    ∃ sG outsG, execG lower (C10.browserCfg types minDelay qtype)
+        (QueryScheduler.init () types addr port multicast (minDelay : Int)
+          (((C10.browserCfg types minDelay qtype).lo : Int), ((C10.browserCfg types minDelay qtype).hi : Int)) qtype 0) none evs = .ok (sG, outsG)
+      ∧ RunInv (C10.browserCfg types minDelay qtype) sG s' ∧ SendsEq outsG outs :=
+  exec_source lower evs tS (C10_init_runInv types minDelay qtype addr port multicast) hal hex
+
+open Zc.GenFacts.FnSchedRun C10 in
+/-- `C10_startup2`, `C10_rate2`, `C10_alive2` for the sends of the translated code -/
+theorem C10_startup_rate_alive2_source (lower : String → String) (types : List String) (minDelay : Nat) (qtype : Option Bool)
+    (addr : Option String) (port : Int) (multicast : Bool) (tS : Int) (pre0 : List (Int × Op))
+    (t0 : Int) (d : Nat) (evs : List (Int × Op)) (s' : S2) (outs : List Send) (hidle : IdleOps pre0) (hact : Active evs)
+    (hal : ∀ e ∈ pre0 ++ (t0, .start d) :: evs, aliasOk lower e.2)
+    (hex : exec2 (browserCfg types minDelay qtype) {} tS (pre0 ++ (t0, .start d) :: evs) = .ok (s', outs)) :
+    ∃ sG outsG, execG lower (browserCfg types minDelay qtype)
+        (QueryScheduler.init () types addr port multicast (minDelay : Int)
+          (((browserCfg types minDelay qtype).lo : Int), ((browserCfg types minDelay qtype).hi : Int)) qtype 0) none
+        (pre0 ++ (t0, .start d) :: evs) = .ok (sG, outsG)
+      ∧ SendsEq outsG outs
+      ∧ (20 ≤ d ∧ d ≤ 120 ∧
+          ( (s'.startupSent < 4 ∧ outs = startupSends (browserCfg types minDelay qtype) (t0 + d) 0 s'.startupSent
+              ∧ ∀ e ∈ evs, e.1 ≤ t0 + d + startupOffset s'.startupSent)
+          ∨ (Post (Sched2.abs s') ∧ ∃ post, outs = startupSends (browserCfg types minDelay qtype) (t0 + d) 0 4 ++ post
+              ∧ (∀ o ∈ post, t0 + d + 14000 + minDelay ≤ o.t) ∧ Spaced minDelay (post.map (·.t))) ))
+      ∧ Spaced minDelay ((outs.drop 3).map (·.t))
+      ∧ (Fresh evs → ∃ k due, s'.armed = some (k, due) ∧ lastTime t0 evs ≤ due ∧ sG.next_run.isSome) := by
+  obtain ⟨sG, outsG, h1, h2, h3⟩ := C10_run_is_source lower types minDelay qtype addr port multicast tS _ hal s' outs hex
+  refine ⟨sG, outsG, h1, h3, C10_startup2 types minDelay qtype tS pre0 t0 d evs s' outs hidle hact hex,
+    C10_rate2 types minDelay qtype tS pre0 t0 d evs s' outs hidle hact hex, fun hf => ?_⟩
+  obtain ⟨k, due, ha, hd⟩ := C10_alive2 types minDelay qtype tS pre0 t0 d evs s' outs hidle hact hf hex
+  refine ⟨k, due, ha, hd, ?_⟩
+  rw [← h2.rel.started]
+  exact h2.armedStarted (by rw [ha]; rfl)
+
+open Zc.GenFacts.FnSchedRun C10 in
+/-- `C10_refresh_chain2` and `C10_refreshed_chain2` for the sends of the translated code: the 75 % / +10 % chain of a record is made of
+`async_send_ready_queries` calls of the translated `_process_ready_types` -/
+theorem C10_refresh_chain2_source (lower : String → String) (types : List String) (minDelay : Nat) (qtype : Option Bool)
+    (addr : Option String) (port : Int) (multicast : Bool) (tS : Int) (pre0 : List (Int × Op))
+    (t0 : Int) (d : Nat) (pre : List (Int × Op)) (t : Int) (a n : String) (ttl : Nat) (cr : Int) (evs : List (Int × Op))
+    (s' : S2) (outs : List Send) (links : Nat)
+    (hal : ∀ e ∈ pre0 ++ (t0, .start d) :: (pre ++ (t, .ptr a n ttl cr) :: evs), aliasOk lower e.2)
+    (hex : exec2 (browserCfg types minDelay qtype) {} tS
+      (pre0 ++ (t0, .start d) :: (pre ++ (t, .ptr a n ttl cr) :: evs)) = .ok (s', outs)) :
+    ∃ sG outsG, execG lower (browserCfg types minDelay qtype)
+        (QueryScheduler.init () types addr port multicast (minDelay : Int)
+          (((browserCfg types minDelay qtype).lo : Int), ((browserCfg types minDelay qtype).hi : Int)) qtype 0) none
+        (pre0 ++ (t0, .start d) :: (pre ++ (t, .ptr a n ttl cr) :: evs)) = .ok (sG, outsG)
+      ∧ SendsEq outsG outs
+      ∧ (IdleOps pre0 → Untouched a pre0 → Active pre → Untouched a pre → Active evs → Untouched a evs →
+          t ≤ cr + 750 * ttl → t0 + d + 14000 ≤ cr + 750 * ttl →
+          Chain (browserCfg types minDelay qtype) n ttl (cr + 1000 * ttl) (lastTime t evs) outs links (cr + 750 * ttl))
+      ∧ (IdleOps pre0 → SameType a n pre0 → Active pre → SameType a n pre → Active evs → Untouched a evs →
+          t + minDelay ≤ cr + 750 * ttl → t0 + d + 14000 + minDelay ≤ cr + 750 * ttl →
+          ∃ w', cr + 750 * ttl - minDelay ≤ w' ∧ w' ≤ cr + 750 * ttl + minDelay ∧
+            Chain (browserCfg types minDelay qtype) n ttl (cr + 1000 * ttl) (lastTime t evs) outs links w') := by
+  obtain ⟨sG, outsG, h1, _, h3⟩ := C10_run_is_source lower types minDelay qtype addr port multicast tS _ hal s' outs hex
+  exact ⟨sG, outsG, h1, h3,
+    fun hidle hnew0 hpre hnew hact hun hbefore hlate =>
+      C10_refresh_chain2 types minDelay qtype tS pre0 t0 d pre t a n ttl cr evs s' outs links hidle hnew0 hpre hnew hact hun hbefore hlate hex,
+    fun hidle hn0 hpre hn hact hun hbefore hlate =>
+      C10_refreshed_chain2 types minDelay qtype tS pre0 t0 d pre t a n ttl cr evs s' outs links hidle hn0 hpre hn hact hun hbefore hlate hex⟩
 
 end Tie
 
